@@ -198,7 +198,7 @@ where
 
 fn append_child<T>(node: T, value: &str) -> Result<(), Box<dyn Error>>
 where
-    T: Clone + xml_dom::Node + xml_dom::NodeMut,
+    T: Clone + xml_dom::Node + xml_dom::NodeMut + xml_dom::AsNode,
 {
     let new_value = parse_node(value)?;
 
@@ -209,16 +209,26 @@ where
     Ok(())
 }
 
+/// The document a node belongs to; the document node is its own document.
+fn document_of<T>(node: &T) -> Result<xml_dom::XmlDocument, Box<dyn Error>>
+where
+    T: xml_dom::Node + xml_dom::AsNode,
+{
+    match node.as_node() {
+        xml_dom::XmlNode::Document(v) => Ok(v),
+        _ => node
+            .owner_document()
+            .ok_or_else(|| "Node without document.".into()),
+    }
+}
+
 fn append_child_to_tree<T>(node: T, child: xml_dom::XmlNode) -> Result<(), Box<dyn Error>>
 where
-    T: Clone + xml_dom::Node + xml_dom::NodeMut,
+    T: Clone + xml_dom::Node + xml_dom::NodeMut + xml_dom::AsNode,
 {
     match child {
         xml_dom::XmlNode::Attribute(v) => {
-            let mut n = node
-                .owner_document()
-                .unwrap()
-                .create_attribute(v.name().as_str())?;
+            let mut n = document_of(&node)?.create_attribute(v.name().as_str())?;
             n.borrow_mut().set_value(v.value()?.as_str())?;
 
             if let Some(mut attr) = node.attributes() {
@@ -228,24 +238,15 @@ where
             }
         }
         xml_dom::XmlNode::CData(v) => {
-            let n = node
-                .owner_document()
-                .unwrap()
-                .create_cdata_section(v.data()?.as_str());
+            let n = document_of(&node)?.create_cdata_section(v.data()?.as_str());
             node.append_child(n.as_node())?;
         }
         xml_dom::XmlNode::Comment(v) => {
-            let n = node
-                .owner_document()
-                .unwrap()
-                .create_comment(v.data()?.as_str());
+            let n = document_of(&node)?.create_comment(v.data()?.as_str());
             node.append_child(n.as_node())?;
         }
         xml_dom::XmlNode::Element(v) => {
-            let n = node
-                .owner_document()
-                .unwrap()
-                .create_element(v.tag_name().as_str())?;
+            let n = document_of(&node)?.create_element(v.tag_name().as_str())?;
             node.append_child(n.as_node())?;
 
             if let Some(attributes) = v.attributes() {
@@ -259,17 +260,11 @@ where
             }
         }
         xml_dom::XmlNode::EntityReference(v) => {
-            let n = node
-                .owner_document()
-                .unwrap()
-                .create_entity_reference(v.node_name().as_str())?;
+            let n = document_of(&node)?.create_entity_reference(v.node_name().as_str())?;
             node.append_child(n.as_node())?;
         }
         xml_dom::XmlNode::Text(v) => {
-            let n = node
-                .owner_document()
-                .unwrap()
-                .create_text_node(v.data()?.as_str());
+            let n = document_of(&node)?.create_text_node(v.data()?.as_str());
             node.append_child(n.as_node())?;
         }
         _ => {
